@@ -549,6 +549,26 @@ ASTNode *PrimaryExpressionParser::parsePrimary() {
 
         // 型名かどうかをチェック
         bool is_cast = false;
+        // 識別子で始まる場合、既知の型名（typedef / struct / enum / union /
+        // interface / 型パラメータ）のときだけキャスト候補とする。
+        // そうでなければ (x) や (a[i + 1] + 1) のような括弧式である。
+        bool identifier_names_type = false;
+        if (parser_->check(TokenType::TOK_IDENTIFIER)) {
+            const std::string &type_name = parser_->current_token_.value;
+            identifier_names_type =
+                parser_->typedef_map_.count(type_name) > 0 ||
+                parser_->struct_definitions_.count(type_name) > 0 ||
+                parser_->enum_definitions_.count(type_name) > 0 ||
+                parser_->union_definitions_.count(type_name) > 0 ||
+                parser_->interface_definitions_.count(type_name) > 0;
+            for (const auto &params : parser_->type_parameter_stack_) {
+                for (const auto &param : params) {
+                    if (param == type_name) {
+                        identifier_names_type = true;
+                    }
+                }
+            }
+        }
         if (parser_->check(TokenType::TOK_INT) ||
             parser_->check(TokenType::TOK_CHAR) ||
             parser_->check(TokenType::TOK_VOID) ||
@@ -560,7 +580,7 @@ ASTNode *PrimaryExpressionParser::parsePrimary() {
             parser_->check(TokenType::TOK_BOOL) ||
             parser_->check(TokenType::TOK_STRING_TYPE) ||
             parser_->check(TokenType::TOK_CHAR_TYPE) ||
-            parser_->check(TokenType::TOK_IDENTIFIER)) {
+            identifier_names_type) {
 
             // 型をパースしてみる
             RecursiveLexer type_check_lexer = parser_->lexer_;
